@@ -4,6 +4,8 @@ CONSTANTS
   SemSize = 1000
   Kind = "base"
   MayFail = {}
+  EndOrder = "cancel-release"
+  AcquireAnswer = "cause"
   ParentMay = FALSE
 CONSTRAINT HighWater
 POSTCONDITION Accepted
